@@ -900,6 +900,11 @@ func (c *Compiler) isNilableType(typ *runtime.Type) bool {
 	}
 }
 
+// ImplementsMarshaler reports whether values of typ are encoded by a MarshalJSON or MarshalText method.
+func ImplementsMarshaler(typ *runtime.Type) bool {
+	return typ.Implements(marshalJSONType) || typ.Implements(marshalJSONContextType) || typ.Implements(marshalTextType)
+}
+
 func (c *Compiler) implementsMarshalJSONType(typ *runtime.Type) bool {
 	return typ.Implements(marshalJSONType) || typ.Implements(marshalJSONContextType)
 }
